@@ -140,8 +140,9 @@ def unstable(sched: str, cfg: Dict[str, Any], plan: Dict[str, Any], upto: int) -
     return False
 
 
-def correspondence_plans(ctx, P: C.Part, n_cfg: int) -> None:
-    """model plan (driver, Float) vs the real scheduler, bin by bin"""
+def correspondence_plans(ctx, P: C.Part, n_cfg: int) -> List[Dict[str, Any]]:
+    """model plan (driver, Float) vs the real scheduler, bin by bin; returns the configurations it ran (for `correspondence_glue`)"""
+    ran: List[Dict[str, Any]] = []
     for i in range(n_cfg):
         if ctx.time_left() < 60:
             P.notes.append("time budget reached in correspondence")
@@ -159,10 +160,11 @@ def correspondence_plans(ctx, P: C.Part, n_cfg: int) -> None:
             P.disagreements.append({"op": "plan", "sched": sched, "cfg": cfg, "impl_raised": repr(ex)})
             continue
         mp = model_plan(ctx.driver, sched, cfg)
+        ran.append(cfg)
         P.cases += 1
         P.hit(sched)
         P.nontrivial.add((sched,) + cfg_key(cfg))
-        P.sample({"op": "plan", "sched": sched, "cfg": cfg, "nf": rp["nf"], "L_first_last": [rp["L"][0], rp["L"][-1]]})
+        P.sample({"op": "plan", "sched": sched, "cfg": cfg, "nf": rp["nf"], "L_first_last": ([rp["L"][0], rp["L"][-1]] if rp["L"] else [])})
         # the GENERATED walk (translated from schedulers.py each run) must reproduce the same f, r, b, L, K
         if sched in ("ltf", "new_ltf", "vectorized_ltf"):
             gl = f"genwalk {dict(ltf='ltf', new_ltf='new', vectorized_ltf='vec')[sched]} {cfg['N']} {C.f2h(cfg['fs'])} {C.f2h(cfg['olap'])} {C.f2h(cfg['bmin'])} {cfg['Lmin']} {cfg['Jdes']} {cfg['Kdes']}"
@@ -242,6 +244,198 @@ def correspondence_plans(ctx, P: C.Part, n_cfg: int) -> None:
                 P.hit("unstable-boundary")
             else:
                 P.disagreements.append({"op": "plan", "sched": sched, "cfg": cfg, "bin": bad[0], "field": bad[1], "detail": bad[2]})
+    return ran
+
+
+# ------------------------------------------------------------------------------------------ generated glue (region SchedGlue)
+GLUE_REQUIRED = {"ltf": ["N", "fs", "olap", "bmin", "Lmin", "Jdes", "Kdes"], "lpsd": ["N", "fs", "olap", "Jdes", "Kdes"],
+                 "vectorized_ltf": ["N", "fs", "olap", "bmin", "Lmin", "Jdes", "Kdes"], "new_ltf": ["N", "fs", "olap", "bmin", "Lmin", "Jdes", "Kdes"]}
+GLUE_FLOAT_KEYS = ("f", "r", "b", "m")
+GLUE_INT_KEYS = ("L", "K", "navg")
+
+
+def kwargs_line(items: List[Tuple[str, Any]]) -> str:
+    """keyword bindings in store order -> `n (key i|r value)^n` (Python int / Python float)"""
+    parts = [str(len(items))]
+    for k, v in items:
+        if isinstance(v, (int, np.integer)) and not isinstance(v, bool):
+            parts += [k, "i", str(int(v))]
+        else:
+            parts += [k, "r", C.f2h(float(v))]
+    return " ".join(parts)
+
+
+def parse_plan_dict(r: str) -> Optional[Dict[str, Any]]:
+    """answer of the driver ops `genplan` / `gentail`: None for `NONE`, else every key of the output dictionary"""
+    if r.strip() == "NONE":
+        return None
+    if r.startswith("ERR"):
+        raise RuntimeError(r)
+    secs = [x.strip() for x in r.split("|")]
+    if len(secs) != 10:
+        raise RuntimeError("plan dictionary answer with %d sections: %s" % (len(secs), r[:200]))
+    fl = lambda x: [C.h2f(t) for t in x.split()]
+    it = lambda x: [int(t) for t in x.split()]
+    nf = int(secs[0])
+    nbins = len(secs[5].split())               # one start list per entry of "L" (an empty plan prints no list at all)
+    D = [it(x) for x in secs[9].split(";")] if (nbins > 0 or secs[9]) else []
+    return {"nf": nf, "f": fl(secs[1]), "r": fl(secs[2]), "b": fl(secs[3]), "m": fl(secs[4]), "L": it(secs[5]), "K": it(secs[6]),
+            "navg": it(secs[7]), "O": fl(secs[8]), "D": D}
+
+
+def real_dict(out: Dict[str, Any]) -> Dict[str, Any]:
+    """the dictionary a real scheduler returned, EVERY key, in plain Python values"""
+    return {"nf": int(out["nf"]), "f": [float(v) for v in out["f"]], "r": [float(v) for v in out["r"]], "b": [float(v) for v in out["b"]],
+            "m": [float(v) for v in out["m"]], "L": [int(v) for v in out["L"]], "K": [int(v) for v in out["K"]],
+            "navg": [int(v) for v in out["navg"]], "O": [float(v) for v in out["O"]], "D": [[int(d) for d in dd] for dd in out["D"]],
+            "keys": sorted(out.keys())}
+
+
+def _same(a: float, b: float, tol: float) -> bool:
+    return (a != a and b != b) or abs(a - b) <= tol          # NaN on both sides (e.g. the mean of an empty array) is agreement
+
+
+def glue_diff(gen: Dict[str, Any], real: Dict[str, Any]) -> Optional[Tuple[str, int, Any]]:
+    """first difference (key, bin, detail) between the generated and the real output dictionary; walk-level keys first.
+    Nothing is assumed about the consistency of either dictionary (the value under "nf" is compared, never used as a bound)."""
+    if real["keys"] != sorted(["f", "r", "b", "m", "L", "K", "navg", "D", "O", "nf"]):
+        return ("keys", 0, real["keys"])
+    n = min(len(d[k]) for d in (gen, real) for k in ("L", "K", "f", "r"))
+    for j in range(n):
+        for k in ("L", "K"):
+            if gen[k][j] != real[k][j]:
+                return (k, j, {"generated": gen[k][j], "impl": real[k][j]})
+        for k in ("f", "r"):
+            if not _same(gen[k][j], real[k][j], 1e-9 * max(abs(real[k][j]), 1e-300)):
+                return (k, j, {"generated": gen[k][j], "impl": real[k][j]})
+    for k in ("f", "L", "K", "r"):
+        if len(gen[k]) != len(real[k]):
+            return ("nf" if k == "f" else k, n, {"generated_len": len(gen[k]), "impl_len": len(real[k])})
+    if gen["nf"] != real["nf"]:
+        return ("nf-key", 0, {"generated": gen["nf"], "impl": real["nf"]})
+    for k in GLUE_FLOAT_KEYS + GLUE_INT_KEYS + ("O", "D"):
+        if len(gen[k]) != len(real[k]):
+            return ("len-" + k, 0, {"generated": len(gen[k]), "impl": len(real[k])})
+    for j in range(n):
+        for k in ("b", "m"):
+            if not _same(gen[k][j], real[k][j], 1e-9 * max(abs(real[k][j]), 1e-300)):
+                return (k, j, {"generated": gen[k][j], "impl": real[k][j]})
+        if gen["navg"][j] != real["navg"][j]:
+            return ("navg", j, {"generated": gen["navg"][j], "impl": real["navg"][j]})
+        if gen["D"][j] != real["D"][j]:
+            return ("D", j, {"generated_head": gen["D"][j][:6], "impl_head": real["D"][j][:6], "generated_len": len(gen["D"][j]), "impl_len": len(real["D"][j])})
+        if not _same(gen["O"][j], real["O"][j], 1e-9):
+            return ("O", j, {"generated": gen["O"][j], "impl": real["O"][j]})
+    return None
+
+
+def correspondence_glue(ctx, P: C.Part, cfgs: List[Dict[str, Any]]) -> None:
+    """the GENERATED schedulers of region SchedGlue (argument unpacking, `lpsd_plan`'s forwarding, the statements after the walk, the
+    output dictionary -- translated from schedulers.py each run) executed by the driver against the real schedulers, EVERY key of
+    the returned dictionary, on the configurations `correspondence_plans` ran: all four schedulers per configuration; keyword
+    dictionaries in shuffled order with an extra unknown key; `lpsd_plan` WITH conflicting / partial / absent `bmin`, `Lmin`;
+    a missing required key (TypeError <-> no plan).  Random choices come from a child generator seeded by one integer drawn from
+    ctx.rng here, i.e. after everything the existing correspondence draws."""
+    import time as _time
+    rng = np.random.default_rng(int(ctx.rng.integers(0, 2 ** 62)))
+    t0 = _time.time()
+    cap = 90.0 if ctx.thorough else 15.0
+    done = 0
+    for ci, cfg in enumerate(cfgs):
+        if _time.time() - t0 > cap or ctx.time_left() < 60:
+            P.notes.append(f"glue correspondence stopped after {ci} of {len(cfgs)} configurations (time cap)")
+            break
+        done += 1
+        for sched in SCHEDS:
+            items = list(cfg.items())
+            variant = "plain"
+            if sched == "lpsd":
+                variant = ["conflict", "conflict", "no-bmin-Lmin", "only-bmin", "only-Lmin", "int-bmin"][int(rng.integers(0, 6))]
+                if variant == "no-bmin-Lmin":
+                    items = [(k, v) for k, v in items if k not in ("bmin", "Lmin")]
+                elif variant == "only-bmin":
+                    items = [(k, v) for k, v in items if k != "Lmin"]
+                elif variant == "only-Lmin":
+                    items = [(k, v) for k, v in items if k != "bmin"]
+                elif variant == "int-bmin":
+                    items = [(k, (int(rng.integers(2, 9)) if k == "bmin" else v)) for k, v in items]
+                else:
+                    # conflicting values that would change the plan if the caller's won
+                    items = [(k, (float(rng.uniform(1.5, max(2.0, min(50.0, cfg["N"] / 2 * 0.9)))) if k == "bmin"
+                                  else int(rng.integers(2, cfg["N"] + 1)) if k == "Lmin" else v)) for k, v in items]
+            elif rng.random() < 0.15 and cfg["N"] / 2 > 3:
+                variant = "int-args"                 # Python ints where floats are expected: converted exactly
+                ib = int(rng.integers(1, 4))
+                items = [(k, (ib if k == "bmin" else 0 if k == "olap" else v)) for k, v in items]
+            if rng.random() < 0.5:
+                items.append(("zzz_unknown", 3.5))
+            order = rng.permutation(len(items))
+            items = [items[int(o)] for o in order]
+            drop = None
+            if rng.random() < 0.08:
+                drop = GLUE_REQUIRED[sched][int(rng.integers(0, len(GLUE_REQUIRED[sched])))]
+                items = [(k, v) for k, v in items if k != drop]
+                variant += "+missing-" + drop
+            kwargs = dict(items)
+            line = f"genplan {DRV_NAME[sched]} {cfg['N'] + 8} " + kwargs_line(items)
+            case = {"op": "genplan", "sched": sched, "kwargs": kwargs, "variant": variant}
+            why = ""
+            try:
+                real = real_dict(sched_fn(sched)(**kwargs))
+            except TypeError as ex:          # _require_args: a required name is missing
+                real, why = None, "TypeError"
+            except SystemExit as ex:         # ltf_plan: `sys.exit(-1)` for an empty plan
+                real, why = None, "SystemExit"
+            except BaseException as ex:  # noqa
+                P.disagreements.append(dict(case, impl_raised=repr(ex)))
+                continue
+            try:
+                gen = parse_plan_dict(ctx.driver.ask(line))
+            except Exception as ex:
+                P.disagreements.append(dict(case, driver=repr(ex)))
+                continue
+            P.cases += 1
+            P.hit("glue-" + sched)
+            if sched == "lpsd":
+                P.hit("glue-lpsd-" + variant.split("+")[0])
+            P.nontrivial.add(("glue", sched, variant) + cfg_key(cfg))
+            if ci == 0 and sched == "lpsd":
+                P.sample({"op": "genplan", "sched": sched, "variant": variant, "kwargs": kwargs, "nf": None if real is None else real["nf"]})
+            if real is None or gen is None:
+                P.hit("glue-missing-key" if drop else "glue-no-plan")
+                if (real is None) != (gen is None):
+                    P.disagreements.append(dict(case, generated=("no plan" if gen is None else "plan"), impl=(why if real is None else "plan"), dropped=drop))
+                continue
+            d = glue_diff(gen, real)
+            if d is None:
+                P.hit("glue-bins", real["nf"])
+                continue
+            if d[0] in ("L", "K", "f", "r", "nf"):
+                # a walk-level difference (region Sched's walk inside the generated scheduler): rounding-boundary probe as for `genwalk`
+                rp = {"nf": real["nf"], "L": real["L"], "K": real["K"], "f": real["f"]}
+                base = {k: v for k, v in kwargs.items() if k != "zzz_unknown"}
+                base.setdefault("bmin", 1.0)         # lpsd_plan ignores / supplies these two
+                base.setdefault("Lmin", 1)
+                if unstable(sched, base, rp, d[1]):
+                    P.unstable += 1
+                    P.hit("unstable-boundary")
+                    # the statements after the walk are still checked on this case: generated tail on the REAL walk's lists
+                    w = DRV_NAME[sched]
+                    if w != "lpsd":
+                        tl = f"gentail {w} {cfg['N']} {C.arr(real['f'])} {C.arr(real['r'])} " + ("" if w == "vec" else C.arr(real["b"]) + " ") \
+                             + f"{C.iarr(real['L'])} {C.iarr(real['K'])}"
+                        try:
+                            g2 = parse_plan_dict(ctx.driver.ask(tl))
+                            d2 = glue_diff(g2, real) if g2 is not None else ("no plan", 0, None)
+                        except Exception as ex:
+                            d2 = ("driver", 0, repr(ex))
+                        P.cases += 1
+                        P.hit("gluetail-" + sched)
+                        if d2 is not None:
+                            P.disagreements.append({"op": "gentail", "sched": sched, "cfg": cfg, "key": d2[0], "bin": d2[1], "detail": d2[2]})
+                    continue
+            P.disagreements.append(dict(case, cfg=cfg, key=d[0], bin=d[1], detail=d[2]))
+    P.notes.append(f"glue correspondence (region SchedGlue): {done} configurations x 4 schedulers in {_time.time() - t0:.1f} s")
 
 
 # ------------------------------------------------------------------------------------------ predicates (oracle)
@@ -252,9 +446,20 @@ def viol(prop: str, sched: str, cfg, sub: str, what: str, extra: Optional[Dict] 
     return C.Violation(what=f"{sched}: {what}  cfg={cfg}", signature=sig, replay={"scheduler": sched, "cfg": cfg, "subclaim": sub})
 
 
+def shape_violation(prop: str, sched: str, cfg, plan) -> List[C.Violation]:
+    """the output dictionary is one consistent table: "nf" = len(f) and every per-bin entry has nf elements (the predicates below
+    index every entry by bin number, so an inconsistent table is reported here instead of crashing them)"""
+    lens = {k: len(plan[k]) for k in ("f", "r", "b", "L", "K", "navg", "D", "O")}
+    if any(v != plan["nf"] for v in lens.values()):
+        return [viol(prop, sched, cfg, "nf-eq-len", f"output dictionary is inconsistent: nf={plan['nf']} but entry lengths {lens}")]
+    return []
+
+
 def pred_C02(sched: str, cfg, plan) -> List[C.Violation]:
     """every plan segments the record safely and completely"""
-    out = []
+    out = shape_violation("C02", sched, cfg, plan)
+    if out:
+        return out
     e = eff(cfg, sched)
     N = cfg["N"]
     if plan["nf"] < 1:
@@ -293,7 +498,9 @@ def ulps(x: float, n: float = 8.0) -> float:
 
 
 def pred_C03(sched: str, cfg, plan) -> List[C.Violation]:
-    out = []
+    out = shape_violation("C03", sched, cfg, plan)
+    if out:
+        return out
     e = eff(cfg, sched)
     N, fs = cfg["N"], cfg["fs"]
     f, r, b, L = plan["f"], plan["r"], plan["b"], plan["L"]
@@ -351,7 +558,9 @@ def nearest_int_ok(K: int, v: Fraction) -> bool:
 
 
 def pred_C04(sched: str, cfg, plan) -> List[C.Violation]:
-    out = []
+    out = shape_violation("C04", sched, cfg, plan)
+    if out:
+        return out
     e = eff(cfg, sched)
     N, fs = cfg["N"], cfg["fs"]
     L, K, D, O, f = plan["L"], plan["K"], plan["D"], plan["O"], plan["f"]
